@@ -240,6 +240,55 @@ def small_sizes_task(task):
     return {'results': out, 'contract': None}
 
 
+EXPECTED_LOOKUP = {
+    'StandardHighHand': ('StandardLookup', False), 'StandardLowHand': ('StandardLookup', True),
+    'ShortDeckHoldemHand': ('ShortDeckHoldemLookup', False), 'EightOrBetterLowHand': ('EightOrBetterLookup', True),
+    'RegularLowHand': ('RegularLookup', True), 'GreekHoldemHand': ('StandardLookup', False), 'OmahaHoldemHand': ('StandardLookup', False),
+    'OmahaEightOrBetterLowHand': ('EightOrBetterLookup', True), 'BadugiHand': ('BadugiLookup', True),
+    'StandardBadugiHand': ('StandardBadugiLookup', True), 'KuhnPokerHand': ('KuhnPokerLookup', False),
+}
+
+
+def wiring_task(task):
+    """E: every hand class is wired to the table and the direction (high / low) its documentation names -- whatever classes were used
+    before it in the process (two fresh interpreters: classes touched base-first and subclass-first)"""
+    import json
+    import os
+    import subprocess
+    from pyvc.runner import NATIVE_PY, REPO, ROOT
+    script = (
+        'import json, sys\n'
+        'import pokerkit.hands as H\n'
+        'names = json.loads(sys.argv[1])\n'
+        'out = {}\n'
+        'for n in names:\n'
+        '    c = getattr(H, n)\n'
+        '    lk = c.lookup\n'
+        '    lk.has_entry(())\n'          # use it
+        'for n in names:\n'
+        '    c = getattr(H, n)\n'
+        '    out[n] = [type(c.lookup).__name__, bool(c.low)]\n'
+        'print(json.dumps(out))\n')
+    names = list(EXPECTED_LOOKUP)
+    import pokerkit.hands as H
+    base_first = sorted(names, key=lambda n: len(getattr(H, n).__mro__))
+    bad = []
+    for order in (base_first, list(reversed(base_first))):
+        p = subprocess.run([NATIVE_PY, '-c', script, json.dumps(order)], capture_output=True, text=True,
+                           env=dict(os.environ, PYTHONPATH=f'{REPO}:{ROOT}'), timeout=300)
+        try:
+            got = json.loads(p.stdout.strip().splitlines()[-1])
+        except Exception:   # noqa
+            bad.append(('no output', p.stderr[-300:]))
+            continue
+        for n, (lk, low) in EXPECTED_LOOKUP.items():
+            if got.get(n) != [lk, low]:
+                bad.append((n, got.get(n), [lk, low], 'order: ' + ' '.join(order[:3]) + ' ...'))
+    return {'results': [res('C04/hands/each-class-uses-its-own-table-and-direction-whatever-was-used-before/E', not bad, f'{bad[:4]}',
+                            meta={'function': 'pokerkit.hands (class attributes lookup / low)', 'domain': 2 * len(names), 'exhaustive': True})],
+            'contract': None}
+
+
 def vc_task(task):
     from pyvc.run import verify_contract
     from pyvc.shapes import Shape
@@ -271,6 +320,7 @@ def main(argv=None):
                               'name': f'hands/{name}/{size}/{first}', 'weight': 3 if size == 5 and first < 20 else 1})
     for name in _classes():
         tasks.append({'module': M, 'fn': 'small_sizes_task', 'cls': name, 'name': f'sizes/{name}', 'pool': 30 if thorough else 16, 'weight': 2})
+    tasks.append({'module': M, 'fn': 'wiring_task', 'name': 'wiring', 'weight': 4})
     import contracts.c04 as c
     for t in c.tasks(chk.tier):
         t.update({'module': M, 'fn': 'vc_task'})
